@@ -848,3 +848,19 @@ Section Sender.
     exists (ESig SigSendFinished [PStrNum id; PInt len; PStr RES_SUCCESS]). split; [exact Hin|left; reflexivity].
   Qed.
 End Sender.
+
+(** ** The zero segment size run: ids are reused without the progress premise *)
+Definition zs_cfg : cfg := mkCfg false [65] 30 0 100 3 None.
+Definition zs_hello : bytes :=
+  encode_frame (FContact (mkContact MAGIC 4 0)) ++ encode_msg (MSessInit 30 0 (2^64-1) [66] []).
+Definition zs_ops : list op := [OStart; ORx zs_hello; OSend [1;2;3]; OPQ; OSend [4]; OPQ].
+
+Theorem sender_ids_increase_refuted :
+  exists c ops, ~ StronglySorted tr_lt (transfers_of (segs_of (sent (run c ops)))).
+Proof.
+  exists zs_cfg, zs_ops.
+  assert (E : transfers_of (segs_of (sent (run zs_cfg zs_ops))) = [(1, [], false); (1, [], false)])
+    by (vm_compute; reflexivity).
+  rewrite E. intros H. inversion H as [|? ? _ F]; subst. inversion F as [|? ? Hlt _]; subst.
+  unfold tr_lt, tr_id in Hlt. cbn [fst] in Hlt. lia.
+Qed.
